@@ -136,7 +136,8 @@ def c01_cases():
 def c03_quick_pick(kn, pre, op, dd):
     single = kn in ("ds", "us")
     if not single:
-        return dd == 0
+        # multi-edge kinds: every dedupe strategy on the duplicate cells (the strategy must be ignored there)
+        return dd == 0 or (pre, op) in {(2, 0), (2, 1), (5, 0)}
     if pre == 3:
         return False
     # measured > 3 min each: fresh edge on a directed single-edge graph under Error/KeepFirst,
